@@ -2,10 +2,12 @@ package props
 
 import (
 	"bytes"
+	"fmt"
 	"testing"
 
 	"pgregory.net/rapid"
 
+	"verif/harness/ref"
 	"verif/harness/sim"
 )
 
@@ -219,4 +221,97 @@ func TestProp_C05_Replay(t *testing.T) {
 		}
 		sim.Judge(rt, "C05replay", sc)
 	})
+}
+
+// ---- C05 (peer part): messages built by the reference, in forms otr3's own Send never produces, delivered twice ----
+
+// RefReplayCase: the reference sends one data message of the given kind, otr3 accepts it; after Dist rounds of further
+// traffic (keys rotate) the very same bytes arrive again.
+type RefReplayCase struct {
+	V    int `json:"v"`
+	Kind int `json:"kind"` // 0 text; 1 text flagged ignore-unreadable; 2 text + extra-key record; 3 flagged text + padding; 4 extra-key record only; 5 flagged text + extra-key record
+	Dist int `json:"dist"`
+}
+
+func runC05RefReplay(c *RefReplayCase) *sim.Outcome {
+	o := &sim.Outcome{}
+	m := newMix(SessCfg{V: c.V, SeedA: 5030, SeedB: 5081, KeyA: 0, KeyB: 3}, 0)
+	if !m.Establish(c.Kind & 1) {
+		o.Discard = true
+		return o
+	}
+	m.ASend([]byte(token(0, 1)))
+	m.Settle(nil, nil)
+	text := []byte(token(1, 500) + " said once")
+	xk := ref.TLV{Type: ref.TLVExtraKey, Val: append(ref.PutU32(nil, 7), "use"...)}
+	var wire []byte
+	switch c.Kind % 6 {
+	case 0:
+		wire = m.R.Send(text)
+	case 1:
+		wire = m.R.SendOpts(text, ref.DataOpts{Flags: 1})
+	case 2:
+		wire = m.R.Send(text, xk)
+	case 3:
+		wire = m.R.SendOpts(text, ref.DataOpts{Flags: 1, TLVs: []ref.TLV{{Type: 0, Val: make([]byte, 9)}}})
+	case 4:
+		wire = m.R.SendOpts(nil, ref.DataOpts{Flags: 1, TLVs: []ref.TLV{xk}})
+		text = nil
+	case 5:
+		wire = m.R.SendOpts(text, ref.DataOpts{Flags: 1, TLVs: []ref.TLV{xk}})
+	}
+	first := m.AReceive(wire)
+	if first.Err != nil || (text != nil && !bytes.Equal(first.Plain, text)) {
+		return o.Fail("C05/harness-first-delivery", "the first delivery of a genuine message of the reference (kind %d) failed: %v %q", c.Kind, first.Err, first.Plain)
+	}
+	m.Settle(nil, nil)
+	for i := 0; i < c.Dist; i++ {
+		m.ASend([]byte(token(0, 10+i)))
+		m.fromR(m.R.Send([]byte(token(1, 10+i))))
+		m.Settle(nil, nil)
+	}
+	for rep := 0; rep < 2; rep++ {
+		nSym, nSMP := len(m.A.Sym), len(m.A.SMP)
+		again := m.AReceive(wire)
+		if again.HasPl && len(again.Plain) > 0 {
+			return o.Fail("C05/text-twice", "a data message of the reference (kind %d: flags/records otr3 itself never combines) was delivered again after %d rounds and Receive returned its text %q once more (err=%v)", c.Kind, c.Dist, again.Plain, again.Err)
+		}
+		if len(m.A.Sym) != nSym || len(m.A.SMP) != nSMP {
+			return o.Fail("C05/tlv-twice", "a data message of the reference (kind %d) delivered again after %d rounds had its records acted on again", c.Kind, c.Dist)
+		}
+		for _, out := range again.Out {
+			if isEncoded(out) {
+				return o.Fail("C05/reply-twice", "a replayed data message of the reference (kind %d) was answered with a data message", c.Kind)
+			}
+		}
+		m.QtoR = nil
+	}
+	// the conversation goes on
+	m.fromR(m.R.Send([]byte(token(1, 900))))
+	ok := false
+	m.Settle(func(cl *sim.Call) { ok = ok || (cl != nil && findToken(cl.Plain) == token(1, 900)) }, nil)
+	if !ok {
+		return o.Fail("C05/after-replay", "after the replays a fresh genuine message was not delivered")
+	}
+	o.Class(fmt.Sprintf("kind%d-dist%d", c.Kind%6, c.Dist))
+	o.NonTrivial = true
+	return o
+}
+
+func init() { reg("C05refreplay", runC05RefReplay) }
+
+func TestProp_C05_RefReplay(t *testing.T) {
+	si, sn := sim.Shard()
+	idx := 0
+	for _, v := range []int{3, 2} {
+		for kind := 0; kind < 6; kind++ {
+			for _, dist := range []int{0, 1, 2, 4} {
+				idx++
+				if idx%sn == si {
+					sim.Judge(t, "C05refreplay", &RefReplayCase{V: v, Kind: kind, Dist: dist})
+				}
+			}
+		}
+	}
+	sim.MarkCompleted("C05refreplay", true)
 }
